@@ -15,7 +15,7 @@ temporary directory (one file per wind field; see ``vf/ref/c16_wind.py``):
   troposphere and stratosphere, 1 cm inside and outside the top and bottom level, ground,
   above the ISA limit) x heading;
 * every hour of 24-hour files (wind direction turning 15 degrees per hour) x heading;
-* every sequence (length 3; thorough: 4) of time stamps from an alphabet spanning files with
+* every sequence (length <= 3; thorough: also length 4 over six core stamps) of time stamps from an alphabet spanning files with
   and without a time axis, two hours of one day, the same day-of-month in two months, and a
   date for which the directory has no file (must be refused on every call, wherever it stands
   in the sequence; valid stamps after it must still get their own day's wind), asked
@@ -238,6 +238,7 @@ TOD_FILES = ['rot', 'ml-rot', 'ml1', 'sep30', 'oct01', 'dec31', 'jan01', 'feb29'
 TOD_HEADINGS = [45.0, 0.0]
 
 SEQ_STAMPS = [['E10', 0], ['E10', 12], ['rot', 0], ['rot', 5], ['rot', 23], ['rot-next-month', 5], ['N50', 5], ['no-file-between', 5], ['rot', [5, 40, 0, 0]]]
+SEQ_CORE = [0, 2, 3, 5, 7, 8]  # indices into SEQ_STAMPS
 SEQ_QUERY = {'h': 45.0, 'tas': 200.0, 'alt': 9144.0, 'lon': -77.0, 'lat': 41.0}  # heading 45: sin = cos
 
 
@@ -312,11 +313,13 @@ def sublattices(tier, seed):
         'axes': {'field': TOD_FILES, 'hour': thours, 'minute_second_microsecond': TOD_WITHIN, 'calls_heading': TOD_HEADINGS},
         'cases': [{'k': 'tod', 'f': f, 't': [hr] + w, 'alt': alt0, 'pos': pos0} for f in TOD_FILES for hr in thours for w in TOD_WITHIN],
     })  # fmt: skip
-    n = 4 if thorough else 3
-    seqs = [list(s) for k in range(1, n + 1) for s in itertools.product(range(len(SEQ_STAMPS)), repeat=k)]
+    seqs = [list(s) for k in (1, 2, 3) for s in itertools.product(range(len(SEQ_STAMPS)), repeat=k)]
+    if thorough:  # length 4 over the core stamps (one per kind of file / hour / missing date / time within the hour)
+        seqs += [list(s) for s in itertools.product(SEQ_CORE, repeat=4)]
     subs.append({
-        'name': f'time-stamp sequences of length <= {n} on one Weather object',
-        'axes': {'stamp': SEQ_STAMPS, 'length': list(range(1, n + 1)), 'query': [SEQ_QUERY]},
+        'name': 'time-stamp sequences on one Weather object (length <= 3' + ('; length 4 over the core stamps)' if thorough else ')'),
+        'axes': {'stamp': SEQ_STAMPS, 'length': [1, 2, 3], 'core_stamps_length_4': [SEQ_STAMPS[i] for i in SEQ_CORE] if thorough else [],
+                 'query': [SEQ_QUERY]},
         'cases': [{'k': 'seq', 's': s} for s in seqs],
     })  # fmt: skip
     nq = range(len(REP_Q))
